@@ -466,7 +466,9 @@ def rule_variants(ctx: Ctx, v: View, rule: str) -> List[List[Tuple]]:
                     seqs = [s + [('c', idx), ('u',)] for s in seqs] if name == 'time_amount' else [s + [('c', idx)] for s in seqs]
                 idx += 1
                 continue
-            seqs = [s + [('t', idx, name) if is_term else ('c', idx)] for s in seqs]
+            nullable = not is_term and any(not e2.symbols for e2 in v.rules_of(name))
+            # a child rule that also matches the empty string (metadata: _metadata_items?) may contribute no text at all
+            seqs = [s + [('t', idx, name) if is_term else ('c', idx)] for s in seqs] + ([list(s) for s in seqs] if nullable else [])
             idx += 1
         out.extend(seqs)
     return out
